@@ -49,7 +49,7 @@ def repo_tree_hash():
 # property table: which engines serve a property and with which populations
 
 L1_POPS = {
-    "C01": ["C01"] * 7 + ["C01fanin"], "C03": ["C03"] * 6 + ["C03scale"], "C05": ["C05"], "C06": ["C06"], "C07": ["C07"],
+    "C01": ["C01"] * 7 + ["C01fanin"], "C03": ["C03"] * 6 + ["C03scale"], "C05": ["C05"] * 7 + ["C05fanin"], "C06": ["C06"], "C07": ["C07"],
     "C08": ["C08"], "C09": ["C09"], "C12": ["C12"], "C19": ["C19"] * 7 + ["C19fanin"],
 }
 L2_PROPS = {"C01", "C02", "C03", "C04", "C05", "C06", "C07", "C08", "C09", "C10", "C11", "C12", "C15", "C18", "C19", "C20"}
@@ -373,6 +373,8 @@ def _check(prop, tier, seed, tmp, t0):
             pop = "C03scale"
         if eng == "l2" and prop == "C10" and i in (5, 11):
             pop = "C10scale" if i == 5 else "C10scale8"
+        if eng == "l2" and prop == "C05" and i == 5:
+            pop = "C05scale"  # a fault at the start of a collection of more than 2^16 elements
         if eng == "l2" and prop == "C19" and i == 5:
             pop = "C19scale"  # state reports while more than 2^16 jobs are outstanding
         report = None
